@@ -42,6 +42,7 @@ pub struct Config {
     /// R-closurepost, closures with parameters: normalized closure source (`|len|len+len0`) -> typed header
     /// (`|len: &usize| -> (o: usize)`); the rule emits `HEADER ensures o == BODY { BODY }`
     pub closure_sig: Vec<(String, String)>,
+    pub closure_sig_visit: bool,
     /// R-mirror: every assignment `X = E` to one of these variables is followed by a ghost copy of the new
     /// value into the named ghost out-parameter: `{ X = E; proof { *G.borrow_mut() = X; } }`
     pub mirror: Vec<(String, String)>,
@@ -87,6 +88,7 @@ impl Config {
             rmatch_map: v["rmatch_map"].as_bool().unwrap_or(false),
             rmatch_map_ok: v["rmatch_map_ok"].as_bool().unwrap_or(false),
             rmatch_map_result: v["rmatch_map_result"].as_bool().unwrap_or(false),
+            closure_sig_visit: v["closure_sig_visit"].as_bool().unwrap_or(false),
             capture_mut: strs(&v["capture_mut"]),
             rmatch_map_result_paths: strs(&v["rmatch_map_result_paths"]).iter().map(|s| norm(s)).collect(),
             drop_stmts: strs(&v["drop_stmts"]).iter().map(|s| norm(s)).collect(),
@@ -747,6 +749,15 @@ impl<'a, 'ast> Visit<'ast> for Rewriter<'a> {
                         self.note("R-hoist", c.span());
                         return;
                     }
+                }
+                // (opt-in) the rules apply inside the body of a closure that keeps its place under a header with its own postcondition
+                if self.cfg.closure_sig_visit && hdr.contains(" ensures ") {
+                    self.scopes.push(HashMap::new());
+                    for p in &c.inputs {
+                        self.bind_pat(p, false, None, None);
+                    }
+                    self.visit_expr(&c.body);
+                    self.scopes.pop();
                 }
                 // a header that states its own postcondition (a body that calls a function value cannot be repeated in one)
                 let pieces = if hdr.contains(" ensures ") {
